@@ -12,7 +12,7 @@ FAILS = ["error", "rstack_poweron", "silent", "lost_exc", "eof", "close"]
 POINTS = ["idle", "inflight", "awaiting", "queued", "resetting", "abandoned"]
 
 
-def scenario(n, fail, point, attached, batched):
+def scenario(n, fail, point, attached, batched, second=None):
     import bellows.ezsp.protocol as proto
     import bellows.ash as ash
 
@@ -108,6 +108,21 @@ def scenario(n, fail, point, attached, batched):
                     if t.done():
                         break
                     await asyncio.sleep(1.0)
+            if second:
+                # the first failure came before any application was attached (and was ignored); now one attaches,
+                # and the NCP fails again: this one must be reported
+                w.ezsp.add_callback(lambda name, args: out["requests"].append((name, args)) if name == "_reset_controller_application" else None)
+                if second == "error":
+                    loop.call_soon(w.protocol.data_received, ashlib.spec_wire("E", code=0x51))
+                elif second == "rstack_poweron":
+                    loop.call_soon(w.protocol.data_received, ashlib.spec_wire("K", code=0x02))
+                elif second == "eof":
+                    loop.call_soon(w.protocol.eof_received)
+                await asyncio.sleep(0.01)
+                for _ in range(60):
+                    if all(t.done() for t in tasks):
+                        break
+                    await asyncio.sleep(1.0)
             out["hung"] = [i for i, t in enumerate(tasks) if not t.done()]
             for t in tasks:
                 if not t.done():
@@ -133,7 +148,10 @@ def scenario(n, fail, point, attached, batched):
     return out
 
 
-def oracle(fail, point, attached, o):
+def oracle(fail, point, attached, o, second=None):
+    if second:
+        attached = True
+        fail = f"{second} after an unreported {fail}"
     if o["run"] != "ok":
         return f"scenario did not run to completion: {o['run']}"
     reqs = len(o["requests"])
@@ -181,6 +199,12 @@ def cases(ctx):
                         if batched and fail in ("silent", "close"):
                             continue
                         cs.append((n, fail, point, attached, batched))
+    # a first failure while no application is attached, then an application attaches and the NCP fails again
+    for n in ([8] if ctx.tier == "quick" else [4, 8, 14]):
+        for fail in ("error", "rstack_poweron", "silent"):
+            for point in ("idle", "awaiting"):
+                for second in ("error", "rstack_poweron", "eof"):
+                    cs.append((n, fail, point, False, False, second))
     return cs
 
 
@@ -192,7 +216,8 @@ def run(ctx):
     cs = cases(ctx)
     outs = [scenario(*c) for c in cs]
     lines = []
-    for (n, fail, point, attached, batched) in cs:
+    for c in cs:
+        (n, fail, point, attached, batched), second = c[:5], (c[5] if len(c) > 5 else None)
         pre = "close " if point == "resetting" else ""   # `reset()` begins with stop_ezsp(): EZSP is not running meanwhile
         if fail == "close":
             lines.append(f"c10 run {2 if attached else 1} close quiet cmd")
@@ -200,16 +225,19 @@ def run(ctx):
             lines.append(f"c10 run {2 if attached else 1} {'stop ' if point == 'resetting' else ''}{EVENT_OF[fail]} cmd")
     model = ctx.driver(lines)
     for i, (c, o) in enumerate(zip(cs, outs)):
-        n, fail, point, attached, batched = c
+        (n, fail, point, attached, batched), second = c[:5], (c[5] if len(c) > 5 else None)
         ctx.cov["evaluations"] += 1
         ctx.cov["distinct_nontrivial"] += 1
         ctx.count(f"fail:{fail}")
         ctx.count(f"point:{point}")
         for tag, (res, dt) in o.get("results", {}).items():
             ctx.count(f"call_outcome:{res}")
-        bad = oracle(fail, point, attached, o)
+        bad = oracle(fail, point, attached, o, second)
         if bad:
-            ctx.violation(bad, {"kind": "failure-handling", "fail": fail, "point": point}, {"n": n, "fail": fail, "point": point, "attached": attached, "batched": batched})
+            ctx.violation(bad, {"kind": "failure-handling", "fail": fail, "point": point}, {"n": n, "fail": fail, "point": point, "attached": attached, "batched": batched, "second": second})
+        if second:
+            ctx.count(f"second:{second}")
+            continue
         if model is not None and o["run"] == "ok":
             steps = model[i].split("|")
             mreq = sum(s.split(";")[0].split(",").count("REQ") for s in steps)
@@ -226,7 +254,8 @@ def run(ctx):
             ctx.sample({"case": list(map(str, c)), "requests": len(o["requests"]), "results": {k: [v[0], round(v[1], 3)] for k, v in o.get("results", {}).items()}, "after": o.get("after")})
     ctx.cov["rule"] = ("failure kinds {ERROR frame, power-on RSTACK, NCP stops acknowledging, connection lost with error, EOF, deliberate close} x workload points {idle, request unacknowledged, "
                        "acknowledged but unanswered, three commands queued, reset in progress, request unacknowledged and abandoned by its caller after 4 s (no later probe)} x {application attached, not attached} x {failure alone, batched with an ACK in one loop iteration}, "
-                       "NCP version 8 (4, 7, 8, 13, 14 thorough): full real stack on the virtual clock")
+                       "NCP version 8 (4, 7, 8, 13, 14 thorough); plus: a first failure {ERROR, power-on RSTACK, silence} while no application is attached, then an application attaches and the NCP fails again "
+                       "{ERROR, power-on RSTACK, EOF}: that failure must be reported; full real stack on the virtual clock")
     ctx.exhaustive = True
 
 
@@ -236,8 +265,8 @@ search = run
 def replay(ctx, obj):
     logging.disable(logging.CRITICAL)
     r = obj["replay"]
-    o = scenario(r["n"], r["fail"], r["point"], r["attached"], r["batched"])
-    bad = oracle(r["fail"], r["point"], r["attached"], o)
+    o = scenario(r["n"], r["fail"], r["point"], r["attached"], r["batched"], r.get("second"))
+    bad = oracle(r["fail"], r["point"], r["attached"], o, r.get("second"))
     print(f"replay {r}: requests={len(o['requests'])} results={o.get('results')} after={o.get('after')}: {'FAILS: ' + bad if bad else 'ok'}")
     if bad:
         print(f"VIOLATION property={ctx.pid} replay=replay")
